@@ -247,14 +247,17 @@ class Linearization(Operator):
         if np.isscalar(other):
             return self.__mul__(other)
         from .operators.outer_product_operator import OuterProduct
-        if other.jac is None:
-            return self.new(OuterProduct(other.domain, self._val)(other),
-                            OuterProduct(other.domain, self._jac(self._val)))
-        tmp_op = OuterProduct(other.target, self._val)
-        return self.new(
-            tmp_op(other._val),
-            OuterProduct(other.target, self._jac(self._val))._myadd(
-                tmp_op(other._jac), False))
+        from .operators.transpose_operator import TransposeOperator
+        oval = other if other.jac is None else other._val
+        # d(a x b) = da x b + a x db;  da x b = transpose(b x da)
+        swap = OuterProduct(self.target, oval)
+        n1, n2 = len(self.target), len(oval.domain)
+        perm = tuple(range(n2, n1 + n2)) + tuple(range(n2))
+        jac = TransposeOperator(swap.target, perm)(swap(self._jac))
+        tmp_op = OuterProduct(oval.domain, self._val)
+        if other.jac is not None:
+            jac = jac._myadd(tmp_op(other._jac), False)
+        return self.new(tmp_op(oval), jac)
 
     def vdot(self, other):
         """Computes the inner product of this Linearization with a Field or
